@@ -435,7 +435,7 @@ func part1(run *vlib.Run, bt *built) {
 	run.Set("fresh_process_crosschecks", crossChecks)
 	run.Set("map_order_nondeterminism_cases", mapOrderCases)
 	run.Set("nondeterministic_replays", nondetReplays)
-	run.Set("programs", rows)
+	run.Set("part1_programs", rows)
 	run.Set("exhaustive", exhaustive)
 	if len(caps) > 0 {
 		run.Set("caps_hit", caps)
